@@ -50,7 +50,20 @@ def run(pid, tier, seed, replay):
                 picked += rnd.sample(rich, min(n, len(rich)))
         open(sessions, "w").write("\n".join(picked) + "\n")
     out = os.path.join(wd, "verdicts.ndjson")
-    vlib.run([drv, "run", sessions, out, "100" if tier == "quick" else "150", "16"], timeout=7200)
+    # tools/expect never waits for the process it starts, so every session leaves a zombie (and its pidfd) behind until the
+    # driver process ends: the sessions are run in batches, one driver process per batch (30,000 sessions in one process
+    # exhausted the machine's process ids and took every other running program down with EAGAIN)
+    all_lines = open(sessions).read().splitlines()
+    with open(out, "w") as fo:
+        for k in range(0, len(all_lines), 2000):
+            part = os.path.join(wd, "sessions_part.ndjson")
+            open(part, "w").write("\n".join(all_lines[k:k + 2000]) + "\n")
+            pout = os.path.join(wd, "verdicts_part.ndjson")
+            vlib.run([drv, "run", part, pout, "100" if tier == "quick" else "150", "16"], timeout=7200)
+            for line in open(pout):
+                c = json.loads(line)
+                c["id"] += k
+                fo.write(json.dumps(c) + "\n")
     jd = vlib.fresh_dir(pid, "judge")
     bad, stats, t = vlib.judge_cases(jd, "Trace_Expect.tla", "Trace_Expect.cfg", out)
     for b in bad:
